@@ -294,3 +294,59 @@ func VH_C09_companion_lengths() {
 	vAssert("C09.companion.pieces_make_up_the_curve", math.Abs(l0+l1-ref) <= 0.002*ref)
 	vAssert("C09.companion.cut_within_one_per_cent_of_the_length", math.Abs(l0-fr*L) <= 0.01*ref)
 }
+
+// C06 companion: elliptical segments (one arc closed by its chord) whose end points lie off the
+// ellipse's axes: Windings/Crossings/Contains against the analytic region (inside the ellipse and
+// on the arc's side of the chord).  The ray then meets the arc near its ends, where the test
+// whether a hit of the full ellipse belongs to the arc decides.
+func VH_C06_companion_elliptic_segment() {
+	units := [][2]float64{{1, 0}, {0.8, 0.6}, {0, 1}, {-0.6, 0.8}, {-0.96, 0.28}, {-0.6, -0.8}, {5.0 / 13, -12.0 / 13}}
+	rr := [][2]float64{{6, 3}, {5, 1}}[vChoose(0, 1)]
+	rx, ry := rr[0], rr[1]
+	rot := units[vChoose(0, 3)]
+	cphi, sphi := rot[0], rot[1]
+	pairs := [][2]int{{1, 3}, {1, 5}, {6, 1}, {3, 6}, {4, 1}, {5, 3}}
+	pr := pairs[vChoose(0, len(pairs)-1)]
+	sweep := vChoose(0, 1) == 1
+	c0, s0 := units[pr[0]][0], units[pr[0]][1]
+	c1, s1 := units[pr[1]][0], units[pr[1]][1]
+	cross := c0*s1 - s0*c1
+	large := (cross < 0) == sweep
+	cx, cy := 1.0, -2.0
+	pos := func(c, s float64) Point {
+		return Point{cx + rx*c*cphi - ry*s*sphi, cy + rx*c*sphi + ry*s*cphi}
+	}
+	st, en := pos(c0, s0), pos(c1, s1)
+	p := &Path{}
+	p.MoveTo(st.X, st.Y)
+	p.ArcTo(rx, ry, math.Atan2(sphi, cphi)*180/math.Pi, large, sweep, en.X, en.Y)
+	p.Close()
+	chord := en.Sub(st)
+	cl := chord.Length()
+	bad := 0
+	for i := -8; i <= 8; i++ {
+		for j := -8; j <= 8; j++ {
+			x, y := cx+float64(i)*0.9+0.137, cy+float64(j)*0.9+0.071
+			u := cphi*(x-cx) + sphi*(y-cy)
+			v := -sphi*(x-cx) + cphi*(y-cy)
+			f := u*u/(rx*rx) + v*v/(ry*ry)
+			side := (chord.X*(y-st.Y) - chord.Y*(x-st.X)) / cl // > 0: left of the chord
+			if math.Abs(f-1) < 0.05 || math.Abs(side) < 0.05 {
+				continue
+			}
+			in := f < 1 && (side < 0) == sweep
+			want := 0
+			if in && sweep {
+				want = 1
+			} else if in {
+				want = -1
+			}
+			w, bnd := p.Windings(x, y)
+			n, _ := p.Crossings(x, y)
+			if bnd || w != want || p.Contains(x, y, NonZero) != in || n%2 == 0 == in {
+				bad++
+			}
+		}
+	}
+	vAssert("C06.companion.segment_windings_match_the_analytic_region", bad == 0)
+}
